@@ -505,11 +505,23 @@ def boxall(run, fx):
         run.broken('LOADERSIB', inst, 'expected one store `_boxes[gid] = ..` in the preloading constructor, found %d' % len(st), ctor.where())
         return
     idx = ctor.strip_all_casts(ctor.N(ctor.strip(st[0]['c'][0])['c'][1]))
-    inits = [x for _, d in ctor.elements() if d['k'] == 'DeclStmt' for x in d.get('decls', []) if x.get('vid') == idx.get('vid') and x.get('init') is not None] if idx['k'] == 'DeclRefExpr' else []
-    if len(inits) != 1:
+    if idx['k'] != 'DeclRefExpr' or idx.get('vid') is None:
         run.broken('LOADERSIB', inst, 'the loop variable indexing _boxes was not recognised', ctor.loc(st[0]))
         return
-    v0 = ctor.strip_all_casts(ctor.N(inits[0]['init'])).get('v')
+    # the definitions of the index that reach the store from outside its loop (the variable may be shared with the glyph loop above)
+    from .util import reaches_avoiding
+    defs = []
+    for _, d in ctor.elements():
+        if d['k'] == 'DeclStmt':
+            defs += [(d, x['init']) for x in d.get('decls', []) if x.get('vid') == idx['vid'] and x.get('init') is not None]
+        elif d['k'] == 'BinaryOperator' and d['op'] == '=' and ctor.strip_all_casts(ctor.N(d['c'][0])).get('vid') == idx['vid']:
+            defs.append((d, d['c'][1]))
+    reaching = [(d, i_) for d, i_ in defs if reaches_avoiding(ctor, d, st[0], avoid=[x for x, _ in defs if x is not d])]
+    vals = {ctor.strip_all_casts(ctor.N(i_)).get('v') for _, i_ in reaching}
+    if not reaching or None in vals and len(vals) == 1:
+        run.broken('LOADERSIB', inst, 'the start value of the loop variable indexing _boxes was not recognised', ctor.loc(st[0]))
+        return
+    v0 = 0 if vals == {0} else sorted(v for v in vals if v != 0 and v is not None)[0] if any(v not in (0, None) for v in vals) else None
     steps = [e for _, e in ctor.elements() if e['k'] == 'UnaryOperator' and e.get('op') in ('pre++', 'post++', 'pre--', 'post--') and ctor.strip_all_casts(ctor.N(e['c'][0])).get('vid') == idx['vid']]
     if v0 == 0 and steps and all(e['op'].endswith('++') for e in steps):
         run.held('LOADERSIB', inst, ctor.loc(st[0]), '%s starts at 0 and only counts up' % ctor.render(idx))
